@@ -3,7 +3,7 @@
    SMP/FeasSound.v (the boolean clause), SMP/FeasStep.v (state.step, middleware, reachable states). *)
 From Coq Require Import List ZArith Bool.
 From JSL Require Import Base.Res SM.Types SM.Util SM.Handler SM.Step SM.Middleware SM.Inv SM.Example
-  SMP.Clock SMP.ClockMain SMP.FeasView SMP.Feasible SMP.FeasSound SMP.FeasStep Dsl.Doc Dsl.DocP SM.ExampleShift SMP.StepInv SMP.LiftSide SMP.OutputDone SMP.Reflect SMP.LiftProv SMP.ProvBatch.
+  SMP.Clock SMP.ClockMain SMP.FeasView SMP.Feasible SMP.FeasSound SMP.FeasStep Dsl.Doc Dsl.DocP SM.ExampleShift SM.ExampleDeadlock SMP.StepInv SMP.LiftSide SMP.OutputDone SMP.Reflect SMP.LiftProv SMP.ProvBatch.
 Import ListNotations.
 
 (* feasible_b (SM/Inv.v), the clause the monitors evaluate on every state of the implementation: per job
@@ -104,6 +104,15 @@ Print Assumptions C01_from_document_partial.
    simulator applies was created in the first state of its batch for the AGV's own claim and a job lying in a
    post- or standalone buffer, and no transition applied before it in that batch can change either fact. For
    ordered (FIFO/LIFO/DUMMY) machine post-buffers the statement above (C01_reachable_partial) remains. *)
+Theorem C01_reachable_every_instance :
+  forall (sigma : oracle) (i : inst) (fuel : nat) (x0 : state) (joker0 : Z) (ta : bool) (r : result) (m : mw),
+    inst_nonneg_b i = true ->
+    clock_b x0 = true -> wfs_b i x0 = true -> fresh2_b i x0 = true -> nodep_b x0 = true ->
+    reach sigma i fuel x0 joker0 ta r m -> feasible_b i (r_x r) = true.
+Proof. intros sigma i fuel x0 joker0 ta r m Hnn C W Fr D H. destruct (run_reachable sigma i Hnn _ _ _ _ _ _ C W Fr D H) as [A _]. exact A. Qed.
+Print Assumptions C01_reachable_every_instance.
+
+(* the same for the instance class of the earlier rounds (corollary) *)
 Theorem C01_reachable_flex :
   forall (sigma : oracle) (i : inst) (fuel : nat) (x0 : state) (joker0 : Z) (ta : bool) (r : result) (m : mw),
     inst_nonneg_b i = true -> flex_post_b i = true ->
@@ -112,6 +121,21 @@ Theorem C01_reachable_flex :
 Proof. intros sigma i fuel x0 joker0 ta r m Hnn Hf C W Fr D H. eapply flex_reachable; eauto. Qed.
 Print Assumptions C01_reachable_flex.
 
+Theorem C01_micro_states_every_instance :
+  forall (sigma : oracle) (i : inst) (fuel : nat) (x0 : state) (joker0 : Z) (ta : bool) (r : result) (m : mw)
+         (a : Z) (r' : result) (m' : mw) (lg : mlog),
+    inst_nonneg_b i = true ->
+    clock_b x0 = true -> wfs_b i x0 = true -> fresh2_b i x0 = true -> nodep_b x0 = true ->
+    reach sigma i fuel x0 joker0 ta r m -> mw_step sigma i fuel r m a = MOk r' m' lg ->
+    forall tr y, In (tr, y) lg -> feasible_b i y = true /\ transit_side_b tr y = true.
+Proof.
+  intros sigma i fuel x0 joker0 ta r m a r' m' lg Hnn C W Fr D H Hm tr y Hin.
+  destruct (run_micro_states sigma i Hnn _ _ _ _ _ _ _ _ _ _ C W Fr D H Hm _ _ Hin) as [A [_ [_ S]]].
+  split; [exact A|]. apply side2_parts in S. tauto.
+Qed.
+Print Assumptions C01_micro_states_every_instance.
+
+(* the same for the instance class of the earlier rounds (corollary) *)
 Theorem C01_micro_states_flex :
   forall (sigma : oracle) (i : inst) (fuel : nat) (x0 : state) (joker0 : Z) (ta : bool) (r : result) (m : mw)
          (a : Z) (r' : result) (m' : mw) (lg : mlog),
@@ -127,15 +151,24 @@ Qed.
 Print Assumptions C01_micro_states_flex.
 
 (* every run is a run with the side condition: the partial theorems above apply to every run of such instances *)
+Theorem C01_side_condition_derived_every_instance :
+  forall (sigma : oracle) (i : inst) (fuel : nat) (x0 : state) (joker0 : Z) (ta : bool) (r : result) (m : mw),
+    inst_nonneg_b i = true ->
+    clock_b x0 = true -> wfs_b i x0 = true -> fresh2_b i x0 = true -> nodep_b x0 = true ->
+    reach sigma i fuel x0 joker0 ta r m -> reachS2 sigma i fuel x0 joker0 ta r m.
+Proof.
+  intros sigma i fuel x0 joker0 ta r m Hnn C W Fr D H. apply NO_iff_clock_b in C.
+  eapply reach_side2; eauto; [apply J_init; auto|apply BI_init; auto].
+Qed.
+Print Assumptions C01_side_condition_derived_every_instance.
+
+(* the same for the instance class of the earlier rounds (corollary) *)
 Theorem C01_side_condition_derived_flex :
   forall (sigma : oracle) (i : inst) (fuel : nat) (x0 : state) (joker0 : Z) (ta : bool) (r : result) (m : mw),
     inst_nonneg_b i = true -> flex_post_b i = true ->
     clock_b x0 = true -> wfs_b i x0 = true -> fresh2_b i x0 = true -> nodep_b x0 = true ->
     reach sigma i fuel x0 joker0 ta r m -> reachS2 sigma i fuel x0 joker0 ta r m.
-Proof.
-  intros sigma i fuel x0 joker0 ta r m Hnn Hf C W Fr D H. apply NO_iff_clock_b in C.
-  eapply reach_side2; eauto. apply J_init; auto.
-Qed.
+Proof. intros. eapply C01_side_condition_derived_every_instance; eauto. Qed.
 Print Assumptions C01_side_condition_derived_flex.
 
 (* the executable side condition implies the one in the theorems *)
@@ -167,4 +200,17 @@ Example C01_flex_run_nontrivial :
 Proof.
   destruct (runG sh_sigma sh_inst side2 200 sh_init0 3%Z true [1;1;1;1]%Z) as [[r m]|] eqn:E; [|vm_compute in E; discriminate].
   exists r, m. split; [eapply reachG_reach; eapply runG_reach; exact E|]. vm_compute in E. inversion E; subst. vm_compute. reflexivity.
+Qed.
+
+(* non-vacuity of the *_every_instance theorems outside the earlier class: an instance with LIFO machine post-buffers
+   (flex_post_b false) meets the hypotheses, and its always-accept run reaches a state in which an AGV waits on a
+   TimeDependency (nodep_b false) - the situation the invariant DEPI of SMP/ProvBatch.v is about *)
+Example C01_every_instance_nontrivial :
+  inst_nonneg_b dl_inst = true /\ flex_post_b dl_inst = false /\ clock_b dl_init = true /\ wfs_b dl_inst dl_init = true
+  /\ fresh2_b dl_inst dl_init = true /\ nodep_b dl_init = true
+  /\ exists r m, reach dl_sigma dl_inst 200 dl_init 5%Z false r m /\ nodep_b (r_x r) = false /\ feasible_b dl_inst (r_x r) = true.
+Proof.
+  repeat (split; [vm_compute; reflexivity|]).
+  destruct (runG dl_sigma dl_inst side2 200 dl_init 5%Z false [1;1;1;1]%Z) as [[r m]|] eqn:E; [|vm_compute in E; discriminate].
+  exists r, m. split; [eapply reachG_reach; eapply runG_reach; exact E|]. vm_compute in E. inversion E; subst. vm_compute. split; reflexivity.
 Qed.
